@@ -90,6 +90,7 @@ type FuncContract struct {
 	Calls    map[int]*LoopContract // call-site invariants for iterators
 	Ghosts   []GhostDecl
 	NoPanic  bool
+	NoPanicExplicitOnly bool // only explicit panic(...) statements must be unreachable
 	Trusted  bool
 	Pure     bool
 	Where    string
@@ -100,6 +101,15 @@ type FuncContract struct {
 	Fresh  bool     // result is a freshly allocated object
 	Uses   []string // lemmas made available to the proof of this function
 	Theory string   // "strings": discharge this function's obligations with the native SMT string theory
+	SelectGhost []SelectGhost // ghost updates attached to select cases
+}
+
+// SelectGhost: when case Case (0-based, source order) of the Select-th select statement fires, Ghost := E.
+type SelectGhost struct {
+	Select, Case int
+	Ghost        string
+	E            Expr
+	Src, Where   string
 }
 
 type SpecFun struct {
@@ -438,7 +448,7 @@ func parseExpr(src string) (e Expr, err error) {
 var itemKw = map[string]bool{"func": true, "extern": true, "spec": true, "axiom": true, "lemma": true,
 	"property": true, "opaque": true, "ghost": true, "theory": true, "import": true, "bind": true}
 var clauseKw = map[string]bool{"requires": true, "ensures": true, "modifies": true, "loop": true, "call": true,
-	"nopanic": true, "trusted": true, "pure": true, "cut": true, "induction": true, "fresh": true, "trigger": true, "uses": true, "auto": true}
+	"nopanic": true, "trusted": true, "pure": true, "cut": true, "induction": true, "fresh": true, "trigger": true, "uses": true, "auto": true, "select": true}
 
 type rawLine struct {
 	kw    string
@@ -788,6 +798,19 @@ func parseSpecFile(path string) (*SpecFile, error) {
 					cur.Uses = append(cur.Uses, n)
 				}
 			}
+		case "select":
+			// select <k> case <i> ghost <G> := <expr>
+			m := regexp.MustCompile(`^(\d+)\s+case\s+(\d+)\s+ghost\s+([A-Za-z_][A-Za-z0-9_]*)\s*:=\s*(.*)$`).FindStringSubmatch(l.text)
+			if cur == nil || m == nil {
+				return nil, fmt.Errorf("%s: bad select clause", l.where)
+			}
+			e, err := parseExpr(m[4])
+			if err != nil {
+				return nil, fmt.Errorf("%s: %v", l.where, err)
+			}
+			k, _ := strconv.Atoi(m[1])
+			ci, _ := strconv.Atoi(m[2])
+			cur.SelectGhost = append(cur.SelectGhost, SelectGhost{Select: k, Case: ci, Ghost: m[3], E: e, Src: l.text, Where: l.where})
 		case "auto":
 			if curLemma == nil {
 				return nil, fmt.Errorf("%s: auto outside lemma", l.where)
@@ -795,6 +818,7 @@ func parseSpecFile(path string) (*SpecFile, error) {
 			curLemma.Auto = true
 		case "nopanic":
 			cur.NoPanic = true
+			cur.NoPanicExplicitOnly = strings.TrimSpace(l.text) == "explicit"
 		case "trusted":
 			cur.Trusted = true
 		case "pure":
